@@ -251,24 +251,41 @@ def preflight(ctx, scs):
 
 
 def replay(ctx, viol, tier):
+    """Re-drive one recorded walk.  harness/history.py records the configuration at the END of the walk as
+    `init` (the list is updated in place), so the start value of every setting the walk changes is only known
+    to differ from the first value written to it: every such start configuration is tried."""
+    import itertools
     vec = viol['vector']
     sc = next((s for s in scenarios(tier) if s.name == vec['history']), None)
     if sc is None:
         raise Machinery('replay: unknown history scenario %r' % vec['history'])
     tup = lambda v: tuple(v) if isinstance(v, list) else v
-    vals = [tup(v) for v in vec['init']]
-    obj = sc.fresh(list(vals))
-    ok, det = True, ''
+    end = [tup(v) for v in vec['init']]
+    steps, first = [], {}
     for step in vec['trail']:
-        if step.startswith('set'):
+        if step.startswith('set') and '=' in step:
             d, val = step[3:].split('=', 1)
-            vals[int(d)] = ast.literal_eval(val)
-            try:
-                sc.set(obj, int(d), vals[int(d)], list(vals))
-            except Exception as e:
-                det = 'setter raised %r' % e
+            steps.append((int(d), ast.literal_eval(val)))
+            first.setdefault(int(d), steps[-1][1])
         elif step.startswith('eval'):
-            a, b = history._obs(sc, obj), history._obs(sc, sc.fresh(list(vals)))
-            if a != b:
-                ok, det = False, 'long-lived %s... vs fresh %s...' % (a[:120], b[:120])
-    ctx.verdict(viol['clause'], ok, cls=viol['cls'], detail='replay of %r from %r: %s' % (vec['trail'], vec['init'], det), vector=vec)
+            steps.append(None)
+    cands = [[v for v in sc.dims[d] if repr(v) != repr(first[d])] if d in first else [end[d]] for d in range(len(sc.dims))]
+    ok, det = True, ''
+    for start in itertools.product(*cands):
+        vals = list(start)
+        obj = sc.fresh(list(vals))
+        for st in steps:
+            if st is None:
+                a, b = history._obs(sc, obj), history._obs(sc, sc.fresh(list(vals)))
+                if a != b:
+                    ok, det = False, 'start %r: long-lived %s... vs fresh %s...' % (start, a[:120], b[:120])
+                    break
+            else:
+                vals[st[0]] = st[1]
+                try:
+                    sc.set(obj, st[0], st[1], list(vals))
+                except Exception as e:
+                    det = 'setter raised %r' % e
+        if not ok:
+            break
+    ctx.verdict(viol['clause'], ok, cls=viol['cls'], detail='replay of %r: %s' % (vec['trail'], det), vector=vec)
